@@ -1,4 +1,5 @@
 import Ledger.Proofs.MachineTxSem
+import Ledger.Proofs.MachineBC16
 
 /-!
 C25 — A postings request is recorded exactly as submitted.
@@ -97,6 +98,34 @@ theorem postings_fail_iff (ps : List TxPosting) (force : Bool) (inp : Input)
       rw [h2]
       simp
 
+/-- Compiler correctness (`semBytecode_eq_sem_full`) for the program `TxToScriptData`
+    writes: the VM model `exec` running its compiled opcodes computes exactly `sem`
+    (result or error). -/
+theorem generated_program_bytecode_eq_sem (ps : List TxPosting) (force : Bool) (p : Program)
+    (hc : compile (txScript ps force) = .ok p) (inp : Input) :
+    semBytecode Cfg.fixed (txScript ps force) inp = sem Cfg.fixed (txScript ps force) inp :=
+  semBytecode_eq_sem_full hc inp
+
+/-- `postings_roundtrip` at the byte-code level (compiled opcodes run by the VM model). -/
+theorem postings_roundtrip_bytecode (ps : List TxPosting) (force : Bool) (p : Program)
+    (hc : compile (txScript ps force) = .ok p) (inp : Input)
+    (hv : inp.vars = txVars ps) (r : Result)
+    (h : semBytecode Cfg.fixed (txScript ps force) inp = .ok r) : r.postings = ps := by
+  rw [generated_program_bytecode_eq_sem ps force p hc inp] at h
+  exact postings_roundtrip ps force inp hv r h
+
+/-- `postings_fail_iff` at the byte-code level. -/
+theorem postings_fail_iff_bytecode (ps : List TxPosting) (force : Bool) (p : Program)
+    (hc : compile (txScript ps force) = .ok p) (inp : Input)
+    (hv : inp.vars = txVars ps)
+    (hprep : ∃ x, prepare Cfg.fixed (txScript ps force) inp = .ok x) :
+    (semBytecode Cfg.fixed (txScript ps force) inp = .error (.run "exec" "insufficient") ↔
+      (force = false ∧ applyPostings inp.balance ps = none)) ∧
+    ((∃ r, semBytecode Cfg.fixed (txScript ps force) inp = .ok r) ↔
+      (force = true ∨ (applyPostings inp.balance ps).isSome)) := by
+  rw [generated_program_bytecode_eq_sem ps force p hc inp]
+  exact postings_fail_iff ps force inp hv hprep
+
 /-! Non-vacuity (kernel-evaluated tests): repeated accounts, a self posting, world on
     either side, a zero amount. -/
 
@@ -110,6 +139,11 @@ example : postingsOf (sem Cfg.fixed (txScript exPostings false) exInput) = some 
 example : (prepare Cfg.fixed (txScript exPostings false) exInput).toOption.isSome = true := by decide +kernel
 
 example : (applyPostings (fun _ _ => 0) exPostings).isSome = true := by decide +kernel
+
+example : (compile (txScript exPostings false)).toOption.isSome = true := by decide +kernel
+
+example : postingsOf (semBytecode Cfg.fixed (txScript exPostings false) exInput) = some exPostings := by
+  decide +kernel
 
 /-- insufficient funds: `a` holds 10 and is asked for 11 -/
 example : postingsOf (sem Cfg.fixed (txScript [⟨"world", "a", "USD", 10⟩, ⟨"a", "b", "USD", 11⟩] false)
